@@ -116,11 +116,11 @@ class Ctx(object):
         if s not in self.notes and len(self.notes) < 50:
             self.notes.append(s)
 
-    def fail(self, case, message):
+    def fail(self, case, message, detail=None):
         """Report a failing case. Known findings (active predicates) are counted, not raised."""
         for name, pred in self.known_active.items():
             try:
-                hit = pred(self.sub, case, message)
+                hit = pred(self.sub, case, message, detail)
             except Exception:
                 hit = False
             if hit:
